@@ -173,6 +173,9 @@ func c16Ref(r *common.RNG, cwd, name string) string {
 
 func genC16(r *common.RNG, id string) (*Case, *c16Expect) {
 	c := &Case{ID: id, Kind: "c16", Upd: true, Coe: r.Chance(1, 2), Cmds: r.Chance(1, 3)}
+	// classy: a script of the class for which the re-run fix-point is proved (tree-free lines
+	// and one `cmp stdout|stderr G` per golden entry)
+	classy := r.Chance(2, 5)
 	ex := &c16Expect{Updates: map[string]string{}, Known: true}
 	n := 1 + r.Intn(5)
 	golden := map[string]string{}
@@ -205,7 +208,9 @@ func genC16(r *common.RNG, id string) (*Case, *c16Expect) {
 		c.Files = append(c.Files, AFile{Name: "other.txt", Data: "untouched\n-- not a marker\n"})
 		isEntry["other.txt"] = true
 	}
-	c.Lines = append(c.Lines, "mkdir $WORK/sub/deep $WORK/golden")
+	if !classy {
+		c.Lines = append(c.Lines, "mkdir $WORK/sub/deep $WORK/golden")
+	}
 	failed := false
 	ex.Rerun = true
 	refs := map[string]int{}
@@ -232,6 +237,9 @@ func genC16(r *common.RNG, id string) (*Case, *c16Expect) {
 		}
 		want := golden[name]
 		kind := r.Intn(12)
+		if classy {
+			kind = r.Intn(6)
+		}
 		var actual string
 		switch kind {
 		case 0, 1: // matching
@@ -242,12 +250,17 @@ func genC16(r *common.RNG, id string) (*Case, *c16Expect) {
 		actual = c16Produced(actual)
 		// where the comparison runs: $WORK, the entry's own directory, or another one
 		dirs := []string{"", "sub", "sub/deep", "golden"}
-		if d := strings.LastIndex(name, "/"); d >= 0 && r.Chance(1, 2) {
+		if classy {
+			// no cd
+		} else if d := strings.LastIndex(name, "/"); d >= 0 && r.Chance(1, 2) {
 			chdir(name[:d])
 		} else if r.Chance(1, 3) {
 			chdir(pick(r, dirs))
 		}
 		lines, src := c16Producer(r, actual, i)
+		for try := 0; classy && src != "stdout" && src != "stderr" && try < 20; try++ {
+			lines, src = c16Producer(r, actual, i)
+		}
 		c.Lines = append(c.Lines, lines...)
 		ref := c16Ref(r, cwd, name)
 		lineNo := len(c.Lines) + 1
@@ -322,6 +335,9 @@ func genC16(r *common.RNG, id string) (*Case, *c16Expect) {
 		}
 		if r.Chance(1, 6) && c.Cmds {
 			c.Lines = append(c.Lines, fmt.Sprintf("probe after-%d", i))
+		}
+		if classy && r.Chance(1, 3) {
+			c.Lines = append(c.Lines, pick(r, []string{"env X=1", "! stdout nomatch-zzz", "[windows] cd nowhere", "", "exec " + helperName + " echo between", "! exec " + helperName + " exit 3"}))
 		}
 	}
 	if r.Chance(1, 10) {
@@ -443,6 +459,20 @@ func (rn *runner) c16Oracle(c *Case, ex *c16Expect, o *Obs) (string, string) {
 			return "", "" // not reproducible through Case (should not happen)
 		}
 		r2 := rn.run(&c2)
+		// does the proved restricted fix-point (C16_rerun_fixpoint_covered) apply to this case?
+		toks := append([]string{"covered"}, cfgTokens(c)...)
+		toks = append(toks, "work="+hx(o.Work), envToken(o.Env), "file="+common.Hex(c.fileBytes()), "file2="+common.Hex(o.FileAfter))
+		rn.mu.Lock()
+		cov := rn.m.Ask1(strings.Join(toks, " "))
+		rn.mu.Unlock()
+		if cov == "1" {
+			rn.count("c16:rerun-covered-by-theorem")
+			if wantVerdict == "pass" && r2.o.Verdict != "pass" {
+				return "rerun-covered-but-not-passing", "the model's executable side conditions of the restricted fix-point hold, yet the second run is " + r2.o.Verdict
+			}
+		} else {
+			rn.count("c16:rerun-outside-the-proved-class")
+		}
 		if r2.o.Verdict != wantVerdict {
 			return "rerun-verdict", fmt.Sprintf("second run without UpdateScripts: want %s, got %s\n%s", wantVerdict, r2.o.Verdict, tail(r2.o.Log, 600))
 		}
